@@ -555,6 +555,21 @@ Qed.
 
 Local Open Scope R_scope.
 
+(* the square-and-multiply power of the model is Z.pow *)
+Local Open Scope Z_scope.
+Lemma pow_pos_sq_spec x p : pow_pos_sq x p = x ^ Z.pos p.
+Proof.
+  induction p as [p IH|p IH|]; cbn [pow_pos_sq].
+  - rewrite IH. rewrite Pos2Z.inj_xI. rewrite Z.pow_add_r, Z.pow_1_r by lia. rewrite Z.pow_mul_r by lia.
+    rewrite Z.pow_2_r. rewrite Z.pow_mul_l. ring.
+  - rewrite IH. rewrite Pos2Z.inj_xO. rewrite Z.pow_mul_r by lia. rewrite Z.pow_2_r. rewrite Z.pow_mul_l. reflexivity.
+  - rewrite Z.pow_1_r. reflexivity.
+Qed.
+
+Lemma zpow_spec x y : 0 <= y -> zpow x y = x ^ y.
+Proof. destruct y; cbn [zpow]; intros H; [reflexivity|apply pow_pos_sq_spec|lia]. Qed.
+Local Open Scope R_scope.
+
 (* ---------- the comparison used by the correspondence means what it says *)
 Lemma agrees_int r z : agrees r (OInt z) = true <-> r = Ok (VI z).
 Proof.
